@@ -12,6 +12,13 @@ except Exception:
 
 # id -> (technique, level category, level text, level note, design ref)
 CHECKS = {
+    "C07": (
+        "proptest-generated declaration DAGs x enumerated/sampled linear extensions x work-list schedules; hook invariant + metamorphic order/schedule independence",
+        "exploration",
+        "All repository headers and generated C/C++ declaration graphs are generated in-process under the default schedule and seeded work-list permutations with the fix-point sweep hook on: no analysis fact that still changes under re-application may be consulted, the output must be byte-identical across schedules, and the per-type facts (derives, generics, fields, reprs, layout assertions, impls) must be identical across every explored declaration order. Exploration is the right level: the quantifier is over programs and schedules, and the hook turns masked non-convergence into an observable event.",
+        "Trusts the sweep hook (re-applies bindgen's own rules to a clone) and the syn inventory; schedules are emulated by permuting the initial work-list; generated graphs are bounded to <=9 top-level declarations.",
+        "DESIGN.md section 2 / C07",
+    ),
     "C14": (
         "exhaustive enumeration of (target spelling, edition) x trigger headers against an independent feature table, plus proptest spot pairs for shrinking",
         "exploration",
